@@ -248,7 +248,24 @@ def r05b(ctx):
     e_hash = edges_where(a, lambda op, l, r: op == 'Eq' and l[0] == 'field' and l[2] == 'chunk_hash' and l[1][0] == 'index' and is_pos(l[1][2]) and flow.mentions(l[1][1], lambda z: z[0] == 'field' and z[2] == 'chunks')
                          and is_query_elem(r, 'query_hashes', is_qi))
     e_qlen = edges_where(a, lambda op, l, r: op == 'Lt' and is_qi(l) and flow.mentions(r, lambda z: z[0] == 'param' and z[2] == 'query_hashes'))
-    e_clen = edges_where(a, lambda op, l, r: op == 'Lt' and is_pos(l) and flow.mentions(r, lambda z: z[0] == 'field' and z[2] == 'chunks'))
+    starts = []
+
+    def pos_start(e):
+        # the fixed part of `start + k`
+        if is_pos(e):
+            starts.append(e[2] if is_qi(e[3]) else e[3])
+        return is_pos(e)
+    edges_where(a, lambda op, l, r: op == 'Eq' and l[0] == 'field' and l[2] == 'chunk_hash' and l[1][0] == 'index' and pos_start(l[1][2]) and False)
+
+    def room_left(r):
+        # `chunks.len() - start` (plain or saturating), possibly under a `min` with the query length
+        for z in flow.subtrees(r):
+            if (z[0] == 'bin' and z[1] in ('Sub', 'SubO') and len(z) == 4) or (z[0] == 'call' and sg(z[1]).endswith('saturating_sub') and len(z[2]) == 2):
+                x, y = (z[2], z[3]) if z[0] == 'bin' else (z[2][0], z[2][1])
+                if flow.mentions(x, lambda w: w[0] == 'field' and w[2] == 'chunks') and any(flow.eqv(y, st_) for st_ in starts):
+                    return True
+        return False
+    e_clen = edges_where(a, lambda op, l, r: op == 'Lt' and ((is_pos(l) and flow.mentions(r, lambda z: z[0] == 'field' and z[2] == 'chunks')) or (is_qi(l) and room_left(r))))
     ctx.check(in_iteration_guarded(a, lp, ib, e_hash), 'R05b', fn, 'hash guard', a.loc(ib), 'the run is extended only on the equal edge of chunks[start+k].chunk_hash == query[k] (full hash)',
               'the in-memory run can be extended past a chunk whose hash was not compared with the query')
     ctx.check(in_iteration_guarded(a, lp, ib, e_qlen), 'R05b', fn, 'query bound', a.loc(ib), 'and only while k < query.len()')
@@ -408,6 +425,8 @@ def r05d(ctx):
         ctx.check(in_iteration_guarded(a, lp, b, eq), 'R05d', fn, 'idx guard', '%s:%d' % (a.body['file'], ln), 'bytes are added only on the edge where the looked-up index == base_idx + i',
                   'the local matcher extends a run with a chunk that is not stored at the next position')
         ie = [z for z in flow.subtrees(e) if z[0] == 'index']
-        ctx.check(bool(ie) and a.rooted_at(ie[0][2], g), 'R05d', fn, 'bytes.of', '%s:%d' % (a.body['file'], ln), 'the bytes added are new_data[idx].data.len() for the looked-up idx',
+        eq_rhs = []
+        edges_where(a, lambda op, l, r: op == 'Eq' and a.rooted_at(l, g) and (eq_rhs.append(r) or False))
+        ctx.check(bool(ie) and (a.rooted_at(ie[0][2], g) or (in_iteration_guarded(a, lp, b, eq) and any(flow.eqv(ie[0][2], r_) for r_ in eq_rhs))), 'R05d', fn, 'bytes.of', '%s:%d' % (a.body['file'], ln), 'the bytes added are new_data[idx].data.len() for the looked-up idx',
                   'the bytes added for a matched chunk are not the length of the chunk at the looked-up position (indexed by %s): the reported byte count of the run is wrong' % (flow.show(ie[0][2])[:40] if ie else '?'))
     ctx.check(latches_guarded(a, lp, eq), 'R05d', fn, 'continue guard', a.loc(lp[0]), 'the loop continues only after such a match')
